@@ -13,13 +13,55 @@ def P():
     return quiet_import()
 
 
+def assign(obj, drv):
+    """obj.clockDriver = drv, and the harness's OWN record of that configuration step (`_vf_driver`).  The oracles
+    read only the record: the library is free to read obj.clockDriver but must not make lookups depend on anything
+    else (e.g. on values it cached there during an earlier lookup)."""
+    obj.clockDriver = drv
+    obj._vf_driver = drv
+
+
+def new_hw():
+    py4hw = P()
+    hw = py4hw.HWSystem()
+    hw._vf_driver = hw.clockDriver          # the default system driver, recorded before any lookup
+    return hw
+
+
 def box(parent, name, driver=None):
     """a structural container; with driver != None everything below it is in that clock domain"""
     py4hw = P()
     b = py4hw.Logic(parent, name)
     if driver is not None:
-        b.clockDriver = driver
+        assign(b, driver)
     return b
+
+
+DRIVER_NAMES = ['gclk', 'gclk', 'gclk', 'clk', 'clk_a', 'clk_b']     # collisions on purpose: drivers are distinct OBJECTS
+
+
+def domains_for(hw, rng, domains, ins):
+    """`domains - 1` extra clock drivers (plain, or gated by a poked wire) on boxes below hw.  Names are drawn from a
+    small pool, so several distinct drivers (different enable wires) share a name, and some share it with the
+    system driver; all have the system driver as base, hence the same freq / phase."""
+    py4hw = P()
+    doms, parents = {}, [hw]
+    for k in range(1, domains):
+        gate = None
+        if rng.random() < .6:
+            gate = hw.wire('gate%d' % k, 1); ins.append(gate)
+        drv = py4hw.ClockDriver(rng.choice(DRIVER_NAMES), base=hw.clockDriver, enable=gate)
+        doms['dom%d' % k] = (drv, gate)
+        parents.append(box(hw, 'dom%d' % k, drv))
+    return doms, parents
+
+
+def net(hw, name, width, rng, p_bidir=.3):
+    """an output net of a sequential block: an ordinary Wire or (p_bidir) a BidirWire, the net type py4hw offers for
+    shared / bidirectional nets.  Both must go through the same prepare / settle machinery."""
+    if rng.random() < p_bidir:
+        return hw.bidir_wire(name, width)
+    return hw.wire(name, width)
 
 
 class Built:
@@ -32,24 +74,18 @@ class Built:
 def fam_chain(rng, domains=1):
     """shift chain of N registers with a ring-closing multiplexer (feedback), optional shared enable / reset,
     plus a subtractor observing two taps.  With domains > 1 the registers are spread over several clock
-    drivers (ungated, or gated by a poked wire), so the chain crosses domain boundaries."""
+    drivers (ungated, or gated by a poked wire), so the chain crosses domain boundaries.  Register outputs are
+    ordinary or bidirectional nets."""
     py4hw = P()
-    hw = py4hw.HWSystem()
+    hw = new_hw()
     W = rng.randint(1, 8); N = rng.randint(2, 7)
     din, sel = hw.wire('din', W), hw.wire('sel', 1)
     ins = [din, sel]
     en = rs = None
     if rng.random() < .5: en = hw.wire('en', 1); ins.append(en)
     if rng.random() < .5: rs = hw.wire('rs', 1); ins.append(rs)
-    doms, parents = {}, [hw]
-    for k in range(1, domains):
-        gate = None
-        if rng.random() < .6:
-            gate = hw.wire('gate%d' % k, 1); ins.append(gate)
-        drv = py4hw.ClockDriver('clk_dom%d' % k, base=hw.clockDriver, enable=gate)
-        doms['dom%d' % k] = (drv, gate)
-        parents.append(box(hw, 'dom%d' % k, drv))
-    q = [hw.wire('q%d' % i, W) for i in range(N)]
+    doms, parents = domains_for(hw, rng, domains, ins)
+    q = [net(hw, 'q%d' % i, W, rng) for i in range(N)]
     d0 = hw.wire('d0', W)
     order = list(range(N)); rng.shuffle(order)          # creation order != chain order
     py4hw.Mux2(hw, 'ring', sel, din, q[N - 1], d0)
@@ -67,17 +103,13 @@ def fam_swap(rng, domains=1):
     """two registers exchanging their values, a third accumulating their product: the textbook case where a
     register that wrote its output immediately would be visible"""
     py4hw = P()
-    hw = py4hw.HWSystem()
+    hw = new_hw()
     W = rng.randint(2, 8)
     load, a0, b0 = hw.wire('load', 1), hw.wire('a0', W), hw.wire('b0', W)
     ins = [load, a0, b0]
-    doms, parents = {}, [hw]
-    for k in range(1, domains):
-        gate = hw.wire('gate%d' % k, 1) if rng.random() < .6 else None
-        if gate is not None: ins.append(gate)
-        drv = py4hw.ClockDriver('clk_dom%d' % k, base=hw.clockDriver, enable=gate)
-        doms['dom%d' % k] = (drv, gate); parents.append(box(hw, 'dom%d' % k, drv))
-    qa, qb, da, db, prod, acc = (hw.wire(n, W) for n in ('qa', 'qb', 'da', 'db', 'prod', 'acc'))
+    doms, parents = domains_for(hw, rng, domains, ins)
+    qa, qb, acc = (net(hw, n, W, rng) for n in ('qa', 'qb', 'acc'))
+    da, db, prod = (hw.wire(n, W) for n in ('da', 'db', 'prod'))
     py4hw.Mux2(hw, 'ma', load, qb, a0, da)
     py4hw.Mux2(hw, 'mb', load, qa, b0, db)
     pick = lambda: parents[rng.randrange(len(parents))]
@@ -93,19 +125,14 @@ def fam_mem(rng, domains=1):
     """synchronous memory whose write address is a register-based counter, read address a delayed copy of it,
     write data from a register and the read port captured by another register"""
     py4hw = P()
-    hw = py4hw.HWSystem()
+    hw = new_hw()
     AW = rng.randint(1, 4); DW = rng.randint(1, 8)
     we, wd, inc = hw.wire('we', 1), hw.wire('wd', DW), hw.wire('inc', 1)
     ins = [we, wd, inc]
-    doms, parents = {}, [hw]
-    for k in range(1, domains):
-        gate = hw.wire('gate%d' % k, 1) if rng.random() < .6 else None
-        if gate is not None: ins.append(gate)
-        drv = py4hw.ClockDriver('clk_dom%d' % k, base=hw.clockDriver, enable=gate)
-        doms['dom%d' % k] = (drv, gate); parents.append(box(hw, 'dom%d' % k, drv))
+    doms, parents = domains_for(hw, rng, domains, ins)
     pick = lambda: parents[rng.randrange(len(parents))]
-    wa, wan, ra, zero = hw.wire('wa', AW), hw.wire('wan', AW), hw.wire('ra', AW), hw.wire('zero', AW)
-    wdr, rdata, rq = hw.wire('wdr', DW), hw.wire('rdata', DW), hw.wire('rq', DW)
+    wa, wan, ra, zero = net(hw, 'wa', AW, rng), hw.wire('wan', AW), net(hw, 'ra', AW, rng), hw.wire('zero', AW)
+    wdr, rdata, rq = net(hw, 'wdr', DW, rng), net(hw, 'rdata', DW, rng), net(hw, 'rq', DW, rng)
     py4hw.Constant(hw, 'zero', 0, zero)
     py4hw.AddCarryIn(hw, 'next', wa, zero, wan, inc)           # wa + 0 + inc
     mk = [lambda: py4hw.Reg(pick(), 'rwa', wan, wa), lambda: py4hw.Reg(pick(), 'rra', wa, ra),
@@ -121,16 +148,11 @@ def fam_counter(rng, domains=1):
     register sampling both.  Add is not a translated class, so this family is compared against the
     snapshot-then-apply reference and across schedules only (no Coq model)."""
     py4hw = P()
-    hw = py4hw.HWSystem()
+    hw = new_hw()
     W1, W2 = rng.randint(1, 4), rng.randint(1, 5)
     rst, inc = hw.wire('rst', 1), hw.wire('inc', 1)
     ins = [rst, inc]
-    doms, parents = {}, [hw]
-    for k in range(1, domains):
-        gate = hw.wire('gate%d' % k, 1) if rng.random() < .6 else None
-        if gate is not None: ins.append(gate)
-        drv = py4hw.ClockDriver('clk_dom%d' % k, base=hw.clockDriver, enable=gate)
-        doms['dom%d' % k] = (drv, gate); parents.append(box(hw, 'dom%d' % k, drv))
+    doms, parents = domains_for(hw, rng, domains, ins)
     pick = lambda: parents[rng.randrange(len(parents))]
     q1, q2, b0, cat, s = hw.wire('q1', W1), hw.wire('q2', W2), hw.wire('b0', 1), hw.wire('cat', W1 + W2), hw.wire('s', W1 + W2)
     mk = [lambda: py4hw.Counter(pick(), 'c1', rst, inc, q1), lambda: py4hw.Counter(pick(), 'c2', rst, b0, q2),
@@ -150,15 +172,10 @@ def fam_fsm(rng, domains=1):
     from py4hw.emulation.HILWrapperUART import CMDRequest, CMDResponse
     from py4hw.logic.protocol.uart.serdes import UARTSerializer
     from py4hw.logic.clock import AutoReset
-    hw = py4hw.HWSystem()
+    hw = new_hw()
     valid, c, tick = hw.wire('valid', 1), hw.wire('c', 8), hw.wire('tick', 1)
     ins = [valid, c, tick]
-    doms, parents = {}, [hw]
-    for k in range(1, domains):
-        gate = hw.wire('gate%d' % k, 1) if rng.random() < .6 else None
-        if gate is not None: ins.append(gate)
-        drv = py4hw.ClockDriver('clk_dom%d' % k, base=hw.clockDriver, enable=gate)
-        doms['dom%d' % k] = (drv, gate); parents.append(box(hw, 'dom%d' % k, drv))
+    doms, parents = domains_for(hw, rng, domains, ins)
     pick = lambda: parents[rng.randrange(len(parents))]
     ready = hw.wire('ready', 1)
     index_in, v_in, index_out = hw.wire('index_in', 8), hw.wire('v_in', 32), hw.wire('index_out', 8)
@@ -180,13 +197,96 @@ def fam_fsm(rng, domains=1):
     return Built(hw, ins, {'family': 'fsm', 'domains': domains}, doms)
 
 
+def fam_zoo(rng, domains=1):
+    """the clocked library blocks that the other families do not use, each wired between producers and consumers that are
+    created in random order: stimulus generators (Sequence, wrapping and one-shot, 1-5 values), capture blocks
+    (StreamCapture, StreamCaptureSigned), DualPortSynchronousMemory, UARTDeserializer, ClockSyncFSM, MsgSequencer,
+    Axi2ClkFSM, VitisKernelFSM, intel_lpm_counter.  Every output feeds a register (a consumer visited before or after the
+    producer, depending on the schedule); inputs come from poked wires or from other blocks' outputs.  Most of these
+    classes are not translated to Coq, so this family is compared with the snapshot reference and across schedules."""
+    py4hw = P()
+    from py4hw.logic.simulation import Sequence, StreamCapture, StreamCaptureSigned
+    from py4hw.logic.storage import DualPortSynchronousMemory
+    from py4hw.logic.protocol.uart.serdes import UARTDeserializer
+    from py4hw.logic.protocol.uart.clock import ClockSyncFSM
+    from py4hw.logic.protocol.uart.sequencer import MsgSequencer
+    from py4hw.emulation.vitiswrapping import Axi2ClkFSM, VitisKernelFSM
+    from py4hw.external.intel.ip.lpm import intel_lpm_counter
+    hw = new_hw()
+    ins = []
+    doms, parents = domains_for(hw, rng, domains, ins)
+    pick = lambda: parents[rng.randrange(len(parents))]
+    cnt = [0]
+    pool = {}                      # width -> wires usable as inputs
+    def src(wd):
+        c = pool.get(wd, [])
+        if c and rng.random() < .7: return rng.choice(c)
+        cnt[0] += 1
+        w = hw.wire('in%d_%d' % (wd, cnt[0]), wd); ins.append(w); pool.setdefault(wd, []).append(w); return w
+    def out(wd):
+        cnt[0] += 1
+        w = net(hw, 'o%d_%d' % (wd, cnt[0]), wd, rng); return w
+    recipe, outs = [], []
+    def produced(w):
+        outs.append(w)
+    kinds = ['seq', 'seq', 'seq_once', 'seq_once', 'cap', 'caps', 'dpmem', 'des', 'sync', 'msg', 'axi', 'vitis', 'lpm']
+    chosen = [rng.choice(kinds) for _ in range(rng.randint(3, 6))]
+    if not any(k.startswith('seq') for k in chosen): chosen.append('seq_once')
+    for j, k in enumerate(chosen):
+        n = '%s%d' % (k, j)
+        if k in ('seq', 'seq_once'):
+            wd = rng.randint(1, 8); r = out(wd); produced(r)
+            vals = [rng.randrange(1, 1 << wd) if wd > 1 else rng.randrange(2) for _ in range(rng.randint(1, 5))]
+            recipe.append(lambda n=n, vals=vals, r=r, k=k: Sequence(pick(), n, vals, r, once=(k == 'seq_once')))
+        elif k in ('cap', 'caps'):
+            x = None
+            def mk(n=n, k=k):
+                x = rng.choice(outs) if outs else src(4)
+                (StreamCapture if k == 'cap' else StreamCaptureSigned)(pick(), n, x)
+            recipe.append(mk)
+        elif k == 'dpmem':
+            aw, dw = rng.randint(1, 3), rng.randint(1, 8)
+            ra, wa, we, wd_ = src(aw), src(aw), src(1), src(dw); rda = out(dw)
+            rb, wb, web, wdb = src(aw), src(aw), src(1), src(dw); rdb = out(dw)
+            produced(rda); produced(rdb)
+            recipe.append(lambda n=n, a=(ra, wa, we, rda, wd_, rb, wb, web, rdb, wdb): DualPortSynchronousMemory(pick(), n, *a))
+        elif k == 'des':
+            rx, smp, rdy = src(1), src(1), src(1); valid, v, desync = out(1), out(8), out(1)
+            produced(valid); produced(v)
+            recipe.append(lambda n=n, a=(rx, smp, rdy, valid, v, desync): UARTDeserializer(pick(), n, *a))
+        elif k == 'sync':
+            st, sp = src(1), src(1); sy, ac = out(1), out(1); produced(sy); produced(ac)
+            recipe.append(lambda n=n, a=(st, sp, sy, ac): ClockSyncFSM(pick(), n, *a))
+        elif k == 'msg':
+            rdy = src(1); valid, v = out(1), out(8); produced(valid); produced(v)
+            recipe.append(lambda n=n, a=(rdy, valid, v): MsgSequencer(pick(), n, a[0], a[1], a[2], 'Hi!\n'))
+        elif k == 'axi':
+            ah, tgt, rst = src(1), src(4), src(1); cc, co, lo = out(4), out(1), out(1); produced(cc); produced(co)
+            recipe.append(lambda n=n, a=(ah, tgt, rst, cc, co, lo): Axi2ClkFSM(pick(), n, *a))
+        elif k == 'vitis':
+            st, rs, lo, sent = src(1), src(1), src(1), src(1); done, idle, ready = out(1), out(1), out(1); produced(done); produced(ready)
+            recipe.append(lambda n=n, a=(st, rs, done, idle, ready, lo, sent): VitisKernelFSM(pick(), n, *a))
+        elif k == 'lpm':
+            rs = src(1); qq = out(rng.randint(1, 6)); produced(qq)
+            recipe.append(lambda n=n, rs=rs, qq=qq: intel_lpm_counter(pick(), n, rs, qq))
+    # consumers: one or two registers per produced output, chained
+    for j, w in enumerate(list(outs)):
+        q1 = net(hw, 'c%d_a' % j, w.getWidth(), rng); q2 = net(hw, 'c%d_b' % j, w.getWidth(), rng)
+        recipe.append(lambda j=j, w=w, q1=q1: py4hw.Reg(pick(), 'c%d_a' % j, w, q1))
+        if rng.random() < .6:
+            recipe.append(lambda j=j, q1=q1, q2=q2: py4hw.Reg(pick(), 'c%d_b' % j, q1, q2))
+    rng.shuffle(recipe)
+    for mk in recipe: mk()
+    return Built(hw, ins, {'family': 'zoo', 'blocks': chosen, 'domains': domains}, doms, dumpable=False)
+
+
 def fam_random(rng, domains=1):
     import designs
     hw, ins, info = designs.build_random(rng, n_blocks=rng.randint(4, 12), n_inputs=rng.randint(1, 3))
     return Built(hw, ins, {'family': 'random', 'blocks': info['blocks'], 'domains': 1}, {})
 
 
-FAMILIES = {'chain': fam_chain, 'swap': fam_swap, 'mem': fam_mem, 'counter': fam_counter, 'fsm': fam_fsm, 'random': fam_random}
+FAMILIES = {'zoo': fam_zoo, 'chain': fam_chain, 'swap': fam_swap, 'mem': fam_mem, 'counter': fam_counter, 'fsm': fam_fsm, 'random': fam_random}
 
 
 def build(family, seed, domains=1):
@@ -261,7 +361,7 @@ class Instance:
         self.wires = netlist.all_wires(b.hw)
         self.pos = {id(w): i for i, w in enumerate(self.wires)}
         self.clockables = [l for cds in self.sim.clockDrivers.values() for l in cds.clockables]
-        self.expected_clks = 0
+        self.expected_clks = self.sim.total_clks
 
     def values(self):
         return [w.get() for w in self.wires]
@@ -298,30 +398,64 @@ class Instance:
             self.sim.clk(n)
         self.expected_clks += n
         problems = []
-        if len(py4hw.Wire.prepared) != 0:
-            problems.append('Wire.prepared holds %d wire(s) after clk(%d): %s' % (
-                len(py4hw.Wire.prepared), n, [w.getFullPath() for w in py4hw.Wire.prepared][:4]))
+        for cls, lst in prepared_lists():
+            if len(lst) != 0:
+                problems.append('%s.prepared holds %d wire(s) after clk(%d): %s' % (
+                    cls.__name__, len(lst), n, [w.getFullPath() for w in lst][:4]))
         if self.sim.total_clks != self.expected_clks:
             problems.append('Simulator.total_clks = %d after %d requested cycles' % (self.sim.total_clks, self.expected_clks))
         return problems
 
 
+def wire_classes():
+    py4hw = P()
+    out, todo = [], [py4hw.Wire]
+    while todo:
+        c = todo.pop()
+        if c not in out:
+            out.append(c); todo += c.__subclasses__()
+    return out
+
+
+def prepared_lists():
+    """every class-level `prepared` list of Wire and of its subclasses (BidirWire declares its own)"""
+    seen, out = set(), []
+    for c in wire_classes():
+        lst = getattr(c, 'prepared', None)
+        if isinstance(lst, list) and id(lst) not in seen:
+            seen.add(id(lst)); out.append((c, lst))
+    return out
+
+
+def clear_prepared():
+    for c in wire_classes():
+        if isinstance(c.__dict__.get('prepared'), list):
+            c.prepared = []
+
+
 # ------------------------------------------------------------------------------------------------ reference
 def nearest_driver(obj):
-    """harness-owned nearest-ancestor lookup (does not call py4hw.getObjectClockDriver)"""
+    """harness-owned nearest-ancestor lookup over the harness's own record of which object was given which driver
+    (`_vf_driver`, written by assign()/new_hw()); it neither calls py4hw.getObjectClockDriver nor reads obj.clockDriver,
+    so it cannot be influenced by anything the library stores there during a lookup."""
     o = obj
     while o is not None:
-        if getattr(o, 'clockDriver', None) is not None:
-            return o.clockDriver
+        d = o.__dict__.get('_vf_driver')
+        if d is not None:
+            return d
         o = o.parent
     return None
+
+
+_UNSET = object()
 
 
 class RefSim:
     """snapshot-then-apply reference: at an edge every sequential leaf of an enabled domain is evaluated with ALL wire
     values forced back to the pre-edge snapshot, its prepared updates are collected, and only after the last
     leaf are they applied; then one combinational pass.  Uses only leaf.clock()/leaf.propagate(); it does not use
-    Simulator._clk_cycle, Simulator.clockDrivers, ClockDriverSimulator, Wire.settleAll or getObjectClockDriver."""
+    Simulator._clk_cycle, Simulator.clockDrivers, ClockDriverSimulator, Wire.prepared / settleAll, obj.clockDriver or
+    getObjectClockDriver (domains come from the harness's own record of the driver assignments)."""
     def __init__(self, b):
         self.b = b
         with quiet():
@@ -348,20 +482,22 @@ class RefSim:
             for o in self.prop: o.propagate()
 
     def edge(self):
-        py4hw = P()
         snapshot = [w.value for w in self.wires]
         updates = []
         for l in self.leaves:
             drv = self.domain[id(l)]
             if drv is not None and drv.enable is not None and snapshot[self.index(drv.enable)] == 0:
                 continue
-            for w, v in zip(self.wires, snapshot): w.value = v          # every leaf sees the pre-edge values
-            py4hw.Wire.prepared = []
+            for w, v in zip(self.wires, snapshot):
+                w.value = v                                              # every leaf sees the pre-edge values
+                w.next = _UNSET                                          # whatever prepare() stores here is this leaf's update
+            clear_prepared()
             with quiet():
                 l.clock()
-            for w in py4hw.Wire.prepared:
-                updates.append((w, w.next))
-        py4hw.Wire.prepared = []
+            for w in self.wires:
+                if w.next is not _UNSET:
+                    updates.append((w, w.next))
+        clear_prepared()
         for w, v in zip(self.wires, snapshot): w.value = v
         for w, v in updates:
             w.value = v & ((1 << w.getWidth()) - 1)
